@@ -143,6 +143,11 @@ func (dmx *Demuxer) NextData() (d *DemuxerData, err error) {
 						break
 					}
 
+					// Packets that don't begin with a payload unit start are the tail of a payload whose start was lost
+					if !ps[0].Header.PayloadUnitStartIndicator {
+						continue
+					}
+
 					// Parse data
 					var errParseData error
 					if ds, errParseData = parseData(ps, dmx.optPacketsParser, dmx.programMap); errParseData != nil {
@@ -166,6 +171,11 @@ func (dmx *Demuxer) NextData() (d *DemuxerData, err error) {
 
 		// Add packet to the pool
 		if ps = dmx.packetPool.addUnlocked(p); len(ps) == 0 {
+			continue
+		}
+
+		// Packets that don't begin with a payload unit start are the tail of a payload whose start was lost
+		if !ps[0].Header.PayloadUnitStartIndicator {
 			continue
 		}
 
